@@ -1090,13 +1090,16 @@ class ExcelCompiler:
                     failure = failure or exc
 
         # calc the values for ranges
-        try:
-            if failure is not None:
-                raise failure
-            for range_todo in reversed(self.range_todos):
+        range_todos, self.range_todos = self.range_todos, []
+        for range_todo in reversed(range_todos):
+            try:
                 self._evaluate_range(range_todo)
-        finally:
-            self.range_todos = []
+            except Exception as exc:
+                # still calc the other ranges: a range without a value hides
+                # its dependants from a reset
+                failure = failure or exc
+        if failure is not None:
+            raise failure
 
         self.log.info(
             f"Graph construction done, {len(self.dep_graph.nodes())} nodes, "
